@@ -10,7 +10,8 @@
      it_pairs gip files    ImportTag: what the scanner [gip] returns for the specs of the files (already
                            listed in visiting order), specs it rejects left out
    Reference reading:
-     core l = sort by (path, alias) (put-if-absent over the named pairs of l) ++ the root pairs of l. *)
+     core l = sort by (path, alias) (put-if-absent over the named pairs of l)
+              ++ put-if-absent over the root pairs of l (a package imported bare twice is one import, 4a102aa). *)
 From Mage Require Import Base.Strs Model.Gen Proof.SortPerm Proof.Gen_facts Proof.Bridge_C18_imports.
 From Mage Require Model.Dupes Model.ImportTag.
 
@@ -73,10 +74,10 @@ Print Assumptions Compose_sort_pairs.
 Print Assumptions Compose_isort.
 
 (* one package written in the three vocabularies: x/t under two aliases (one pair twice), x/z,
-   x/r as root import twice, over two files; the hypotheses of the agreement hold and the common
+   x/r as root import twice (collected once), over two files; the hypotheses of the agreement hold and the common
    collection is the expected list *)
 Example Compose_C18_imports_nonvacuous :
-  let want := [("x/t", "one"); ("x/t", "two"); ("x/z", "aa"); ("x/r", ""); ("x/r", "")] in
+  let want := [("x/t", "one"); ("x/t", "two"); ("x/z", "aa"); ("x/r", "")] in
   gen_specs ex_gen_files = map dpa (Dupes.imports ex_dupes_pkg) /\
   gen_specs ex_gen_files = it_pairs ImportTag.get_import_path ex_it_files /\
   gen_collection (@rev _) ex_gen_files = want /\
